@@ -6,6 +6,8 @@
 package ast
 
 import (
+	"reflect"
+
 	"github.com/spf13/cast"
 )
 
@@ -87,4 +89,58 @@ func DectDataType(val any) (any, DType) {
 	default:
 		return nil, Invalid
 	}
+}
+
+// Contains reports whether the list or map holder can be reached from v
+// through list elements and map values (v itself included). Storing such a
+// v into holder would make the value contain itself.
+func Contains(v any, holder any) bool {
+	id := containerID(holder)
+	if id == 0 {
+		return false
+	}
+	return containsID(v, id, map[uintptr]struct{}{})
+}
+
+func containerID(v any) uintptr {
+	switch x := v.(type) {
+	case []any:
+		if len(x) > 0 {
+			return reflect.ValueOf(x).Pointer()
+		}
+	case map[string]any:
+		if x != nil {
+			return reflect.ValueOf(x).Pointer()
+		}
+	}
+	return 0
+}
+
+func containsID(v any, id uintptr, seen map[uintptr]struct{}) bool {
+	cur := containerID(v)
+	if cur == 0 {
+		return false
+	}
+	if cur == id {
+		return true
+	}
+	if _, ok := seen[cur]; ok {
+		return false
+	}
+	seen[cur] = struct{}{}
+	switch x := v.(type) {
+	case []any:
+		for _, e := range x {
+			if containsID(e, id, seen) {
+				return true
+			}
+		}
+	case map[string]any:
+		for _, e := range x {
+			if containsID(e, id, seen) {
+				return true
+			}
+		}
+	}
+	return false
 }
